@@ -23,6 +23,9 @@
 
 using namespace hv;
 
+// round 3b: this file is compiled as TWO translation units (checks/C01.json "sources"): as itself = the run part (real code,
+// oracles, main) and through harness/C01_gen.cpp (#define C01_PART_GEN) = the generator only; the reference `Ref` is in both.
+#ifndef C01_PART_GEN
 // ---- round 3: the macro exercise in this TU (C++, -O1) and in harness/C01_o2.c (C, -O2)
 #define MM_CAT_(a, b) a##b
 #define MM_CAT(a, b) MM_CAT_(a, b)
@@ -33,6 +36,7 @@ extern "C" int c01_o2_widths(char *buf, int cap);
 extern "C" struct dlist_head c01_pm_head, c01_pm_nodes[3];
 extern "C" struct slist_head c01_pm_shead, c01_pm_snodes[2];
 
+#endif
 // ------------------------------------------------------------------ reference
 // The abstract state the property talks about: a family of disjoint cyclic
 // sequences ("rings").  A self-linked node is a ring of one.  Poisoned, dead
@@ -84,6 +88,13 @@ static std::string ids(const std::vector<int> &v)
     return s;
 }
 
+static bool cmp_mode(int mode, int a, int b)
+{
+    if (mode == 1) return a % 3 < b % 3;
+    if (mode == 2) { int d = ((a * 37) & 255) - ((b * 37) & 255); d &= 255; return d >= 128; }
+    return a < b;
+}
+#ifndef C01_PART_GEN
 // ------------------------------------------------------------------ C dlist
 struct CItem { int key; struct dlist_head lnk; };
 static std::vector<CItem *> cn;
@@ -106,12 +117,6 @@ static bool ckey_less(CItem *a, CItem *b) { return a->key < b->key; }
 // 8-bit counter, (int8_t)(a - b) < 0 (not transitive on the whole circle)
 static bool ckey_mod3(CItem *a, CItem *b) { return a->key % 3 < b->key % 3; }
 static bool ckey_wrap8(CItem *a, CItem *b) { return (int8_t)((uint8_t)(a->key * 37) - (uint8_t)(b->key * 37)) < 0; }
-static bool cmp_mode(int mode, int a, int b)
-{
-    if (mode == 1) return a % 3 < b % 3;
-    if (mode == 2) { int d = ((a * 37) & 255) - ((b * 37) & 255); d &= 255; return d >= 128; }
-    return a < b;
-}
 
 // ------------------------------------------------------------------ objects on two lists at once
 struct TObj { char pad0[24]; struct dlist_head la; int key; char pad1[12]; struct dlist_head lb; };
@@ -1331,6 +1336,8 @@ static void run_op(const std::vector<std::string> &w, const std::string &, out &
     o.result = val + " | " + dump();
 }
 
+void c01_gen(rng &r, const std::string &tier);
+#else
 // ------------------------------------------------------------------ gen
 // The generator keeps its own reference so that it only emits operations whose
 // preconditions hold (Linux-style contract: *_add wants an entry that is in no
@@ -1949,9 +1956,14 @@ static void gen(rng &r, const std::string &tier)
     gen_round3(r, th);
 }
 
+void c01_gen(rng &r, const std::string &tier) { gen(r, tier); }
+#endif
+#ifndef C01_PART_GEN
 int main(int argc, char **argv)
 {
-    int rc = main_(argc, argv, gen, run_op);
+    int rc = main_(argc, argv, c01_gen, run_op);
     free_all();
     return rc;
 }
+
+#endif
